@@ -54,6 +54,12 @@ class GotranCCodePrinter(C99CodePrinter):
     def _print_Float(self, flt):
         return self._print(str(float(flt)))
 
+    def _print_Integer(self, expr):
+        # An integer literal that does not fit an int overflows in C
+        if abs(int(expr)) > 2**31 - 1:
+            return str(float(int(expr)))
+        return super()._print_Integer(expr)
+
     def _print_Mul(self, expr):
         # A quotient of integer-valued sub-expressions (``1/4``, ``(3/2)*x``, ``pow(x, 1/2)``,
         # ``2/(2 + 2)``) reaches the printer as Mul(Integer, Pow(Integer, -n)) and would be
